@@ -442,7 +442,7 @@ func main() {
 	r = explore.Start("C14")
 	_ = math.MaxUint16
 	if r.Replay != "" {
-		r.Fault("replay: see detail; not implemented")
+		r.ReplayBySearch()
 	}
 	if idx, n, arg, ok := r.Worker(); ok {
 		r.Watchdog(120 * time.Second)
